@@ -56,6 +56,7 @@ import (
 	"unsafe"
 
 	"github.com/coregx/coregex/meta"
+	"github.com/coregx/coregex/verifhook"
 )
 
 // stringToBytes converts string to []byte without allocation.
@@ -816,8 +817,12 @@ func (r *Regex) ReplaceAllLiteral(src, repl []byte) []byte {
 	matched := false
 
 	for {
+		vpos := pos // verif: position this iteration searched from
 		start, end, found := r.engine.FindIndicesAt(src, pos)
 		if !found {
+			if verifhook.On {
+				verifhook.Emit("iterstop", 5, vpos)
+			}
 			break
 		}
 
@@ -826,6 +831,9 @@ func (r *Regex) ReplaceAllLiteral(src, repl []byte) []byte {
 		//nolint:gocritic // badCond: intentional - checking empty match at lastMatchEnd
 		if start == end && start == lastMatchEnd {
 			pos = nextSearchPos(src, pos)
+			if verifhook.On {
+				verifhook.Emit("iter", 5, vpos, start, end, 0, pos)
+			}
 			if pos > len(src) {
 				break
 			}
@@ -853,6 +861,9 @@ func (r *Regex) ReplaceAllLiteral(src, repl []byte) []byte {
 			pos = end
 		default:
 			pos++
+		}
+		if verifhook.On {
+			verifhook.Emit("iter", 5, vpos, start, end, 1, pos)
 		}
 
 		if pos > len(src) {
@@ -889,14 +900,21 @@ func (r *Regex) ReplaceAllLiteralString(src, repl string) string {
 	matched := false
 
 	for {
+		vpos := pos // verif: position this iteration searched from
 		start, end, found := r.engine.FindIndicesAt(b, pos)
 		if !found {
+			if verifhook.On {
+				verifhook.Emit("iterstop", 6, vpos)
+			}
 			break
 		}
 
 		//nolint:gocritic // badCond: intentional - checking empty match at lastMatchEnd
 		if start == end && start == lastMatchEnd {
 			pos = nextSearchPos(b, pos)
+			if verifhook.On {
+				verifhook.Emit("iter", 6, vpos, start, end, 0, pos)
+			}
 			if pos > len(src) {
 				break
 			}
@@ -923,6 +941,9 @@ func (r *Regex) ReplaceAllLiteralString(src, repl string) string {
 			pos = end
 		default:
 			pos++
+		}
+		if verifhook.On {
+			verifhook.Emit("iter", 6, vpos, start, end, 1, pos)
 		}
 
 		if pos > len(src) {
@@ -1101,10 +1122,14 @@ func (r *Regex) ReplaceAll(src, repl []byte) []byte {
 	lastNonEmptyMatchEnd := -1 // Track where the last non-empty match ended
 
 	for {
+		vpos := pos // verif: position this iteration searched from
 		// Search from current position using FindSubmatchAt to preserve absolute positions
 		// This is critical for correct anchor handling (^ should only match at pos 0)
 		matchData := r.engine.FindSubmatchAt(src, pos)
 		if matchData == nil {
+			if verifhook.On {
+				verifhook.Emit("iterstop", 7, vpos)
+			}
 			break
 		}
 
@@ -1129,6 +1154,9 @@ func (r *Regex) ReplaceAll(src, repl []byte) []byte {
 		//nolint:gocritic // badCond: intentional - checking empty match at lastNonEmptyMatchEnd
 		if absStart == absEnd && absStart == lastNonEmptyMatchEnd {
 			pos = nextSearchPos(src, pos)
+			if verifhook.On {
+				verifhook.Emit("iter", 7, vpos, absStart, absEnd, 0, pos)
+			}
 			if pos > len(src) {
 				break
 			}
@@ -1158,6 +1186,9 @@ func (r *Regex) ReplaceAll(src, repl []byte) []byte {
 		default:
 			// Fallback (shouldn't normally happen)
 			pos++
+		}
+		if verifhook.On {
+			verifhook.Emit("iter", 7, vpos, absStart, absEnd, 1, pos)
 		}
 
 		if pos > len(src) {
@@ -1205,14 +1236,21 @@ func (r *Regex) ReplaceAllFunc(src []byte, repl func([]byte) []byte) []byte {
 	matched := false
 
 	for {
+		vpos := pos // verif: position this iteration searched from
 		start, end, found := r.engine.FindIndicesAt(src, pos)
 		if !found {
+			if verifhook.On {
+				verifhook.Emit("iterstop", 8, vpos)
+			}
 			break
 		}
 
 		//nolint:gocritic // badCond: intentional - checking empty match at lastMatchEnd
 		if start == end && start == lastMatchEnd {
 			pos = nextSearchPos(src, pos)
+			if verifhook.On {
+				verifhook.Emit("iter", 8, vpos, start, end, 0, pos)
+			}
 			if pos > len(src) {
 				break
 			}
@@ -1239,6 +1277,9 @@ func (r *Regex) ReplaceAllFunc(src []byte, repl func([]byte) []byte) []byte {
 			pos = end
 		default:
 			pos++
+		}
+		if verifhook.On {
+			verifhook.Emit("iter", 8, vpos, start, end, 1, pos)
 		}
 
 		if pos > len(src) {
@@ -1279,14 +1320,21 @@ func (r *Regex) ReplaceAllStringFunc(src string, repl func(string) string) strin
 	matched := false
 
 	for {
+		vpos := pos // verif: position this iteration searched from
 		start, end, found := r.engine.FindIndicesAt(b, pos)
 		if !found {
+			if verifhook.On {
+				verifhook.Emit("iterstop", 9, vpos)
+			}
 			break
 		}
 
 		//nolint:gocritic // badCond: intentional - checking empty match at lastMatchEnd
 		if start == end && start == lastMatchEnd {
 			pos = nextSearchPos(b, pos)
+			if verifhook.On {
+				verifhook.Emit("iter", 9, vpos, start, end, 0, pos)
+			}
 			if pos > len(src) {
 				break
 			}
@@ -1313,6 +1361,9 @@ func (r *Regex) ReplaceAllStringFunc(src string, repl func(string) string) strin
 			pos = end
 		default:
 			pos++
+		}
+		if verifhook.On {
+			verifhook.Emit("iter", 9, vpos, start, end, 1, pos)
 		}
 
 		if pos > len(src) {
@@ -1535,8 +1586,12 @@ func (r *Regex) AllIndex(b []byte) iter.Seq[[2]int] {
 		pos := 0
 		lastMatchEnd := -1
 		for pos <= len(b) {
+			vpos := pos // verif: position this iteration searched from
 			start, end, found := r.engine.FindIndicesAt(b, pos)
 			if !found {
+				if verifhook.On {
+					verifhook.Emit("iterstop", 4, vpos)
+				}
 				return
 			}
 			// Skip empty matches at the position where a non-empty match just ended.
@@ -1544,6 +1599,9 @@ func (r *Regex) AllIndex(b []byte) iter.Seq[[2]int] {
 			//nolint:gocritic // badCond: intentional - checking empty match at lastMatchEnd
 			if start == end && start == lastMatchEnd {
 				pos = nextSearchPos(b, pos)
+				if verifhook.On {
+					verifhook.Emit("iter", 4, vpos, start, end, 0, pos)
+				}
 				if pos > len(b) {
 					return
 				}
@@ -1557,6 +1615,9 @@ func (r *Regex) AllIndex(b []byte) iter.Seq[[2]int] {
 				pos = end
 			} else {
 				pos = nextSearchPos(b, end)
+			}
+			if verifhook.On {
+				verifhook.Emit("iter", 4, vpos, start, end, 1, pos)
 			}
 		}
 	}
